@@ -251,6 +251,11 @@ def run(ctx):
     exempt = _mkb('and', (_sid(PMV.mk_cmp('==', ('attr', m_t, 'exchange_type'), PMV.expr('Message.Exchange.IKE_SA_INIT'))),
                           ('attr', m_t, 'is_request'),
                           _sid(PMV.mk_cmp('==', ('attr', m_t, 'message_id'), PMV.expr('self.peer_msg_id - 1')))))
+    # (the same exemption with the arithmetic done: Message ID 0 is the previous ID exactly when peer_msg_id is 1)
+    exempt0 = _mkb('and', (_sid(PMV.mk_cmp('==', ('attr', m_t, 'exchange_type'), PMV.expr('Message.Exchange.IKE_SA_INIT'))),
+                           ('attr', m_t, 'is_request'),
+                           _sid(PMV.mk_cmp('==', ('attr', m_t, 'message_id'), _const(0))),
+                           _sid(PMV.mk_cmp('==', PMV.expr('self.peer_msg_id'), _const(1)))))
     effects = []
     for tg, v_, pc_, st_, _seq in PMV.stores:
         tg = _sid(tg)
@@ -266,7 +271,7 @@ def run(ctx):
         if _tq.entails(pc_, protected_goal) is True:
             continue
         granted = c is not None and c.name == '_process_request' and list(c.args.values())[:1] == [parsed[0].term] \
-            and _tq.entails(pc_, exempt) is True
+            and (_tq.entails(pc_, exempt) is True or _tq.entails(pc_, exempt0) is True)
         if granted:
             ctx.ok('U2', 'the only thing an unprotected message can still obtain is the window code for a retransmitted '
                    'IKE_SA_INIT request (`%s` under is_request, previous Message ID, IKE_SA_INIT)' % what, ctx.site(pm, node))
@@ -294,27 +299,28 @@ def run(ctx):
                   site=ctx.site(pm, c.node), detail={'condition': [('' if v else 'not ') + _tq.text(a, 120) for a, v in c.pc]})
     # the previous-ID branch of the window code has no effect (C08/M1, re-derived here)
     preq = ctx.func('ikesa.IkeSa._process_request')
-    gq = esc.add_exception_edges(preq)
-    prev = [c for c in gq.nodes if c.kind == 'cond' and compare_parts(c.ast) and compare_parts(c.ast)[1] is ast.Eq
-            and 'self.peer_msg_id - 1' in (src(compare_parts(c.ast)[0]), src(compare_parts(c.ast)[2]))]
-    ctx.check(len(prev) == 1, 'U2', '_process_request recognises the previous Message ID', key=('U2', 'window-prev'),
-              site=ctx.site(preq, preq.node))
-    first_cond = [m for lab, m in gq.entry.succ]
-    while first_cond and first_cond[0].kind == 'stmt' and isinstance(first_cond[0].ast, ast.Assign) \
-            and isinstance(first_cond[0].ast.value, ast.Dict):
-        first_cond = [m for lab, m in first_cond[0].succ if not isinstance(lab, tuple)]
-    for c in prev:
-        ctx.check(first_cond and first_cond[0] is c, 'U2', 'the previous-ID test is the first thing _process_request does',
-                  key=('U2', 'window-prev-first'), site=ctx.site(preq, c.ast))
-        tn = gq.reach([m for lab, m in c.succ if lab == 'T'], blocked_nodes=[c], follow_exc=False)
-        bad_nodes = [n for n in gq.nodes if n.id in tn and n.kind == 'stmt' and (
-            isinstance(n.ast, (ast.Assign, ast.AugAssign)) or any(
-                isinstance(x, ast.Call) and any(t.qual in mut for t in res.resolve_call(x, preq, count=False).targets)
-                for e in n.exprs() if e is not None for x in walk_no_nested(e)))]
-        rets = [n for n in gq.nodes if n.id in tn and n.kind == 'stmt' and isinstance(n.ast, ast.Return)]
-        ctx.check(not bad_nodes and rets and all(src(r.ast.value) == 'self.last_sent_response_data' for r in rets), 'U2',
-                  'the previous-ID branch only returns the stored response', key=('U2', 'window-prev-effect'),
-                  site=ctx.site(preq, c.ast))
+    PRQ = ctx.sval(preq)
+    m0 = ('param', preq.call_params()[0])
+    mid = ('attr', m0, 'message_id')
+    expected = _sid(PRQ.mk_cmp('==', mid, PRQ.expr('self.peer_msg_id')))
+    previous = _sid(PRQ.mk_cmp('==', mid, PRQ.expr('self.peer_msg_id - 1')))
+    stored = ('attr', ('param', 'self'), 'last_sent_response_data')
+    prev_rets = [pc for pc, t, _ in PRQ.returns if _sid(t) == stored]
+    ctx.check(bool(prev_rets) and all(_tq.entails(pc, previous) is True for pc in prev_rets), 'U2',
+              '_process_request recognises the previous Message ID, and answers it - and nothing else - with the stored response',
+              key=('U2', 'window-prev'), site=ctx.site(preq, preq.node))
+    # whatever has an effect (a store on the IKE_SA, a handler, a generator, the counters) runs for the expected Message ID only: the
+    # previous-ID branch - which the cleartext exemption reaches - only returns the stored response
+    bad_eff = []
+    for tg, v_, pc_, st_, _seq in PRQ.stores:
+        tg = _sid(tg)
+        if tg[0] == 'attr' and tg[1] == ('param', 'self') and _tq.entails(pc_, expected) is not True:
+            bad_eff.append('self.%s = ..' % tg[2])
+    for c in PRQ.calls:
+        if (any(q in mut for q in c.quals) or (isinstance(c.callee, tuple) and c.callee[0] == 'dyn')) and _tq.entails(c.pc, expected) is not True:
+            bad_eff.append(_tq.text(c.term, 60))
+    ctx.check(not bad_eff, 'U2', 'the previous-ID branch only returns the stored response (every effect of _process_request is under "the '
+              'expected Message ID")', key=('U2', 'window-prev-effect'), site=ctx.site(preq, preq.node), detail={'effects outside': bad_eff[:6]})
 
     # a datagram that fails verification (it raises out of process_message) must not make the controller drop an IKE_SA that
     # already existed: a table entry is removed only when its IKE_SA is observed DELETED, or to undo this very event's registration
